@@ -166,6 +166,8 @@ def main(argv):
         return 0
 
     names = select_harnesses(all_h, prop, tier, cfg.get('extra_harnesses'))
+    skipped = json.load(open(os.path.join(cdir, 'info.json'))).get('skipped', {})
+    not_attached = {n: m for n, m in skipped.items() if re.match(r'^%s[a-z]?_' % prop.lower(), n)}
     if a.only:
         names = [n for n in names if re.search(a.only, n)]
     if not names and not cfg.get('e2'):
@@ -176,6 +178,8 @@ def main(argv):
         results = list(ex.map(lambda n: run_one(cdir, n, all_h[n], cfg, tier), names))
 
     inconclusive, violations, notes = [], [], []
+    for n, m in sorted(not_attached.items()):
+        inconclusive.append('%s: harness not attached, the grammar no longer has %s' % (n, ', '.join(m[:3])))
     unreachable = []
     unsat_covers, sat_covers = [], set()
     obligations = discharged = 0
